@@ -136,7 +136,7 @@ def main():
     budget = 20000 if thorough else 700
     valid = [c for c in cases if c["r"]["valid"]]
     picked = valid if len(valid) <= budget else rng.sample(valid, budget)
-    todo = picked + deeper[: (4000 if thorough else 200)]
+    todo = picked + deeper[: (4000 if thorough else 200)] + comb.chain_nests(rep, rng, 3000 if thorough else 240)
     pool.map_cases(rep, "harness.c08", "check_case", todo)
     # merge_transforms (flattening nested Transformed distributions) never changes the function: TLC's Flows machine
     # supplies nests of depth 2 and 3 with exact expected samples / log-probs (shared with C03)
